@@ -22,12 +22,26 @@ def gen_cfg(module_cfg, maxcalls):
     return open(os.path.join(vlib.SPEC, module_cfg + ".cfg")).read().replace("MaxCalls = 4", "MaxCalls = %d" % maxcalls)
 
 
+def simulated(ctx, module, cfg, maxcalls, num):
+    """random behaviours of the model of `maxcalls` calls (TLC -simulate, seeded), as histories"""
+    r = ctx.mc(module, cfg_text=gen_cfg(cfg, maxcalls), want_cases=True, timeout=900, workers=1,
+               extra=["-simulate", "num=%d" % num, "-depth", str(maxcalls + 1), "-seed", str(ctx.seed)])
+    seen, out = set(), []
+    for h in r.cases:
+        k = json.dumps(h, sort_keys=True)
+        if k not in seen:
+            seen.add(k)
+            out.append(h)
+    return sorted(out, key=lambda h: json.dumps(h, sort_keys=True))
+
+
 def run(ctx):
     q = ctx.tier == "quick"
     L = 4 if q else 5
     ctx.rule = ("every call sequence of length %d over Writer {Write(0,1,B/2+5,B-1,B,B+1,2B+1), Flush, Close, ReadFrom(same sizes), Reset, Apply} "
                 "and Reader {Read(0), Read(1), Read(3/5 of content), Read(> content), WriteTo, Size, Apply, Reset}, as enumerated by TLC, "
-                "on sequential and concurrent objects, Reader also with trailing bytes; distinct = distinct (sequence, object kind)" % L)
+                "on sequential and concurrent objects, Reader also with trailing bytes; plus seeded random behaviours of the same models of 8 (Writer) "
+                "and 7 (Reader) calls (TLC -simulate) and, for the Reader, every 2-call (thorough: 3-call) sequence, Reset, every 2-call sequence; distinct = distinct (sequence, object kind)" % L)
     b = vlib.build_harness()
     d = vlib.scratch("c17")
     rnd = random.Random(ctx.seed * 17 + 5)
@@ -38,6 +52,8 @@ def run(ctx):
     hs = sorted(mw.cases, key=lambda h: json.dumps(h, sort_keys=True))
     if not q:
         hs = hs[::2] if len(hs) > 150000 else hs
+    # longer sequences: random behaviours of the same specification (TLC -simulate), 8 calls
+    hs += simulated(ctx, "MC_Writer", "MC_Writer_gen", 8, 300 if q else 4000)
     B = 65536
     wcases = []
     for hi, h in enumerate(hs):
@@ -101,6 +117,19 @@ def run(ctx):
     # ---- Reader
     mr = ctx.mc("MC_Reader", cfg_text=gen_cfg("MC_Reader", L), want_cases=True, timeout=1800, heap="8g")
     rh = sorted(mr.cases, key=lambda h: json.dumps(h, sort_keys=True))
+    # a second life after every short first life: (every sequence of 2 / 3 calls) Reset (every sequence of 2 calls)
+    def prefixes(n):
+        seen, out = set(), []
+        for h in rh:
+            k = json.dumps(h["calls"][:n], sort_keys=True)
+            if k not in seen and len(h["calls"]) >= n:
+                seen.add(k)
+                out.append(h["calls"][:n])
+        return out
+    first, second = prefixes(2 if q else 3), prefixes(2)
+    composed = [{"calls": a + [{"op": "reset", "sz": 0}] + b_} for a in first for b_ in second]
+    rh += simulated(ctx, "MC_Reader", "MC_Reader", 7, 400 if q else 5000)
+    rh += composed
     # one valid frame (3 blocks, content checksum, declared size) as the source
     fw = {"id": 1, "input": {"family": "text", "len": 150000, "seed": 9}, "save": os.path.join(d, "frame.lz4"),
           "opts": {"code": 4, "bcs": True, "ccs": True, "level": 0, "conc": 1, "legacy": False, "handler": False, "size": 150000},
